@@ -254,3 +254,27 @@ pub fn obl_ident_tail(s: &mut Src, ctx: &mut Ctx, len: usize, pos: usize) {
 }
 #[cfg(not(kani))]
 pub fn obl_ident_tail(s: &mut Src, ctx: &mut Ctx, len: usize, pos: usize) {}
+
+/// C04: textual form of an address.  Under Kani the FromStr half: parsing the six lower-case hex
+/// digits of any address gives that address back (Display goes through core::fmt, which is stubbed
+/// out under CBMC); natively also the Display half and the full round trip.
+pub fn obl_icao_text(s: &mut Src, ctx: &mut Ctx) {
+    let a = [s.u8(), s.u8(), s.u8()];
+    let hexd = |n: u8| if n < 10 { b'0' + n } else { b'a' + (n - 10) };
+    let txt = [hexd(a[0] >> 4), hexd(a[0] & 15), hexd(a[1] >> 4), hexd(a[1] & 15), hexd(a[2] >> 4), hexd(a[2] & 15)];
+    let st = match core::str::from_utf8(&txt) {
+        Ok(x) => x,
+        Err(_) => {
+            vcheck!(ctx, false, "[C04] six hex digits are valid text");
+            return;
+        }
+    };
+    let parsed = <ICAO as core::str::FromStr>::from_str(st);
+    vnote!(ctx, "address {:02x?}: text {:?} parses to {:?}", a, st, parsed);
+    vcheck!(ctx, matches!(parsed, Ok(ICAO(p)) if p == a), "[C04] the six lower-case hex digits of an address parse back to the same address");
+    #[cfg(not(kani))]
+    {
+        let shown = alloc::format!("{}", ICAO(a));
+        vcheck!(ctx, shown.as_bytes() == &txt[..], "[C04] the textual form of an address is its six lower-case hex digits");
+    }
+}
